@@ -2,6 +2,8 @@
 
 package storage
 
+import "container/list"
+
 // Helpers shared by the statement-level harnesses (exported so that harnesses
 // in package engine can use them). They only compose existing mkdb functions.
 
@@ -41,7 +43,37 @@ func VerifAbandon(rs *RelationService) {
 	rs.wal.reader.Close()
 }
 
+// VerifDirtyCacheEntry is the predicate handed to verifMapOrderChoice: it selects
+// the entries of a page-cache map that hold a dirty page (the ones a flush writes).
+func VerifDirtyCacheEntry(v any) bool {
+	e, ok := v.(*list.Element)
+	if !ok || e == nil {
+		return false
+	}
+	ce, ok := e.Value.(*cacheEntry)
+	return ok && ce.val != nil && ce.val.isDirty()
+}
+
 func VerifLastKey(rs *RelationService) uint32 { return rs.fs.lastKey }
+
+// VerifTableRoot returns the file offset sys_pages records for table name (-1 if unknown).
+func VerifTableRoot(rs *RelationService, name string) int64 {
+	off, err := rs.getRelationFileOffset(name)
+	if err != nil {
+		return -1
+	}
+	return off
+}
+
+// VerifTreeRootIsLeaf reports whether the page at the recorded root of table name is a leaf.
+func VerifTreeRootIsLeaf(rs *RelationService, name string) bool {
+	off, err := rs.getRelationFileOffset(name)
+	if err != nil {
+		return false
+	}
+	pg, err := rs.fs.fetch(uint64(off))
+	return err == nil && pg.isLeaf
+}
 
 func init() {
 	verifRegister("SMOKE_storage", verifH_SMOKE_storage)
